@@ -300,11 +300,11 @@ class Translator:
         if k == "rec":
             if ty.name == "verif_ctrl":
                 return ("verif_ctrl " + name).rstrip()
+            if ty.name in self.opts.get("opaque_types", {}):
+                return (self.opts["opaque_types"][ty.name] + " " + name).rstrip()
             if ty.name in self.ast.Rname:
                 self.need_record(ty.name)
                 return (c + self.record_cname(ty.name) + " " + name).rstrip()
-            if ty.name in self.opts.get("opaque_types", {}):
-                return (self.opts["opaque_types"][ty.name] + " " + name).rstrip()
             # enum (no record entry): C int
             if ty.name in self.enum_underlying:
                 return (BUILTIN[self.enum_underlying[ty.name]] + " " + name).rstrip()
@@ -1275,6 +1275,16 @@ class Translator:
             bty = self.ety(base)
             bty = bty.to if e.get("isArrow") and bty.kind == "ptr" else bty.noref()
             std = getattr(self, "stdlib", None)
+            ext = self.opts.get("ext_records", {})
+            if not mnode and bty.kind == "rec" and bty.name in ext:
+                # field of a record the unit models itself
+                fl = dict((fn, parse_type(ft)) for (fn, ft) in ext[bty.name])
+                if e["name"] not in fl:
+                    raise ExtractionBreak("field '%s' of modelled record %s" % (e["name"], bty.name))
+                self.need_record(bty.name)
+                self.rule("unit-modelled record field")
+                b = deref(self.rv(base)) if e.get("isArrow") else self.lv(base)
+                return X("mem", b, e["name"], ty=self.lower(fl[e["name"]]))
             if not mnode and std is not None and bty.kind == "rec" and std.record(bty.name) is not None and not std.is_opaque(bty.name):
                 # field of a modelled std record (std::pair): the declaration lives in a system header (not dumped)
                 fl = dict(std.record(bty.name))
